@@ -5,7 +5,8 @@
   depacketizer, yields the frame — for every frame of the codec theorem's domain, every MTU that leaves
   the codec the room its own theorem needs, every packetizer configuration and state, every history
   of frames.  Property theorems only; the composition lemmas are in Rtp/Proofs/Pipeline.lean
-  (codec-independent: C06 + C01) and Rtp/Proofs/PipelineCodecs.lean (C08 + C16 / C11 / C12 / C10).
+  (codec-independent: C06 + C01) and Rtp/Proofs/PipelineCodecs.lean, PipelineVP9.lean, PipelineAV1.lean,
+  PipelineH265.lean (C08 + C16 / C11 / C12 / C10 / C13 + C15 / C14).
 
   Models composed (Rtp/Model/Pipeline.lean): `send` = `Packetizer.packetize` (the payloader
   parameter instantiated) then the general `pktMarshal`; `receive` = the general `pktUnmarshal` then
@@ -17,9 +18,13 @@
                             packets carry `ts`, the payload type and the SSRC, the depacketizer was
                             called once per packet and returned a value every time
     o.reasm                 the depacketizer's return values concatenated
-    histOk / histOkWhole    the same along a history (sequence numbers continue across frames, the
-                            timestamp advances by each frame's sample count), with per-frame /
-                            whole-history reassembly
+    histOk / histOkE / histOkWhole / histOkH265
+                            the same along a history (sequence numbers continue across frames, the
+                            timestamp advances by each frame's sample count), with reassembly per frame
+                            to the frame itself (G.711, Opus, VP8, VP9) / per frame to the frame in the
+                            codec's normal form (AV1: OBUs with size fields, delimiters dropped) / over the
+                            whole history (H264: SPS / PPS are held back across frames) / per frame by the
+                            RFC 7798 specification on the accepted payloads (H265)
 
   Hypotheses common to all theorems (`cfgOk`): payload type < 128; abs-send-time disabled (id 0) or
   enabled with an id in 1–14.  Everything else about the packetizer is arbitrary: MTU (subject to
@@ -34,6 +39,45 @@ import Rtp.Proofs.PipelineH265
 import Rtp.Props.C10
 namespace Rtp.Props.Pipeline
 open Rtp Rtp.Model Rtp.Model.Pipeline Rtp.Pred.Pipeline Rtp.Proofs.Pipeline
+
+/-! ### what `trainOk` says, spelled out -/
+
+/-- **pipeline_train_spelled.**  The train predicate of every `pipeline_*` theorem, read clause by
+    clause: every `Marshal` succeeded with at most MTU bytes; there is one parsed header and one
+    depacketizer result per datagram; the i-th datagram parsed and carries sequence number
+    `first + i` (mod 2^16), the marker exactly when it is the last, the frame's timestamp, the
+    configured payload type and SSRC; every depacketizer call returned a value. -/
+theorem pipeline_train_spelled (pk : Packetizer) (first : UInt16) (ts : UInt32) (o : FrameObs)
+    (h : trainOk pk first ts o = true) :
+    (∀ d ∈ o.dgs, ∃ b, d = .ok b ∧ b.length ≤ pk.mtu.toNat) ∧
+    o.hdrs.length = o.dgs.length ∧ o.outs.length = o.hdrs.length ∧
+    (∀ i (hi : i < o.hdrs.length), ∃ hd, o.hdrs[i] = .ok hd ∧ hd.seq = first + i.toUInt16 ∧
+      hd.marker = decide (i + 1 = o.hdrs.length) ∧ hd.ts = ts ∧ hd.pt = pk.pt ∧ hd.ssrc = pk.ssrc) ∧
+    (∀ r ∈ o.outs, ∃ b, r = .ok b) := by
+  simp only [trainOk, Bool.and_eq_true, beq_iff_eq, List.all_eq_true] at h
+  obtain ⟨⟨⟨⟨⟨⟨h1, h2⟩, h3⟩, h4⟩, h5⟩, h6⟩, h7⟩ := h
+  refine ⟨?_, h2, h6, ?_, ?_⟩
+  · intro d hd
+    have := h1 d hd
+    cases d with
+    | ok b => exact ⟨b, rfl, by simpa [dgOk] using this⟩
+    | err _ => simp [dgOk] at this
+    | panic => simp [dgOk] at this
+  · intro i hi
+    obtain ⟨a, ha1, ha2⟩ := seqFrom_get _ _ h3 i hi
+    obtain ⟨b, hb1, hb2⟩ := markLast_get _ h4 i hi
+    have hab : a = b := by rw [ha1] at hb1; cases hb1; rfl
+    subst hab
+    have hf := h5 _ (List.getElem_mem hi)
+    rw [ha1] at hf
+    simp only [fieldsOk, Bool.and_eq_true, beq_iff_eq] at hf
+    exact ⟨a, ha1, ha2, hb2, hf.1.1, hf.1.2, hf.2⟩
+  · intro r hr
+    have := h7 r hr
+    cases r with
+    | ok b => exact ⟨b, rfl⟩
+    | err _ => simp [Res.isOk] at this
+    | panic => simp [Res.isOk] at this
 
 /-! ### G.711 / G.722 (C06 ∘ C01 ∘ C08 ∘ C16) -/
 
